@@ -18,12 +18,21 @@ OneOp == CASE Coin(4) -> [a |-> "GenKey"]
            [] Coin(2) -> [a |-> "Unlock", p |-> Priv]
            [] Coin(3) -> [a |-> "Export", s |-> Seed, p |-> Priv]
            [] OTHER -> [a |-> "GenKey"]
+\* the lock family: exports (which derive and then wipe the key-decrypting key), unlocks and locks with the right
+\* passphrase, overlapping
+LockOp == CASE Coin(3) -> [a |-> "Export", s |-> Seed, p |-> "p1"]
+            [] Coin(2) -> [a |-> "Unlock", p |-> "p1"]
+            [] Coin(3) -> [a |-> "Lock"]
+            [] Coin(3) -> [a |-> "Sign", s |-> "s1", i |-> RS(0..1)]
+            [] OTHER -> [a |-> "Export", s |-> "s1", p |-> "p1"]
 ThreadOps == LET n == RS(2..5) IN [i \in 1..n |-> OneOp]
+LockThreadOps == LET n == RS(3..5) IN [i \in 1..n |-> LockOp]
 Prefix == <<[a |-> "NewKs", p |-> "p1", s |-> "s1", r |-> "r1"]>>
           \o (IF Coin(2) THEN <<[a |-> "NewKs", p |-> "p1", s |-> "s2", r |-> ""]>> ELSE <<>>)
           \o [i \in 1..RS(1..3) |-> [a |-> "GenKey"]]
           \o (IF Coin(2) THEN <<[a |-> "Unlock", p |-> "p1"]>> ELSE <<>>)
 GInit == hist = <<>>
-GNext == hist' = Append(hist, [prefix |-> Prefix, threads |-> [i \in 1..RS(2..4) |-> ThreadOps]])
+GNext == \/ \E k \in 1..2 : hist' = Append(hist, [prefix |-> Prefix, threads |-> [i \in 1..RS(2..4) |-> ThreadOps]])
+         \/ hist' = Append(hist, [prefix |-> Prefix, threads |-> [i \in 1..RS(3..4) |-> LockThreadOps]])
 Emit == Len(hist) = GenLen => PrintT(<<"BEHAVIOUR", ToJson(hist)>>)
 =============================================================================
